@@ -10,6 +10,7 @@ import importlib
 import json
 import multiprocessing as mp
 import os
+import re
 import sys
 import time
 import traceback
@@ -106,6 +107,8 @@ def _raised_in_repo(ex):
     """module:function of the innermost /repo frame if the exception was raised by /repo code, or by a library
     model on behalf of a library call made from /repo code (the replay on the real libraries decides whether
     the real library raises too); None if it comes from the harness itself"""
+    if _signature_mismatch_with_stub(ex):
+        return None
     tb = ex.__traceback__
     frames = []
     while tb is not None:
@@ -123,6 +126,26 @@ def _raised_in_repo(ex):
     if fn.startswith(loader_mod.REPO + "/"):
         return "%s:%s" % (os.path.relpath(fn, loader_mod.REPO), frames[i].f_code.co_name)
     return None
+
+
+_SIG = re.compile(r"^(?P<q>[\w.<>]+)\(\) (takes |got an unexpected keyword argument|got multiple values for|missing \d+ required)")
+
+
+def _signature_mismatch_with_stub(ex):
+    """TypeError('X.f() takes ... / got an unexpected keyword ...') where X.f is a stand-in defined by this framework (a
+    harness stub or a filesystem / library model used in replay mode as well): the code under test called a library
+    function with more of its real signature than the stand-in offers.  That is a gap of the stand-in - never a finding;
+    the replay would 'confirm' it because it uses the same stand-in."""
+    if not isinstance(ex, TypeError):
+        return False
+    m = _SIG.match(str(ex))
+    if not m:
+        return False
+    head = m.group("q").split(".")[0]
+    for name, mod in list(sys.modules.items()):
+        if name.startswith("bverif") and mod is not None and hasattr(mod, head):
+            return True
+    return False
 
 
 def merge_stats(a, b):
